@@ -218,6 +218,42 @@ func (e *EndpointIndex) GetOrCreateEndpointShard(serviceName, namespace string) 
 	return ep, true
 }
 
+// getOrCreateLockedEndpointShard is GetOrCreateEndpointShard, except that the returned shards are write-locked
+// before the index lock is released (lock order: index, then shards - the same as every delete path). The caller
+// must unlock them.
+func (e *EndpointIndex) getOrCreateLockedEndpointShard(serviceName, namespace string) (*EndpointShards, bool) {
+	e.mu.RLock()
+	if ep, ok := e.shardsBySvc[serviceName][namespace]; ok {
+		ep.Lock()
+		e.mu.RUnlock()
+		return ep, false
+	}
+	e.mu.RUnlock()
+
+	e.mu.Lock()
+	defer e.mu.Unlock()
+
+	m, ok := e.shardsBySvc[serviceName]
+	if !ok {
+		m = map[string]*EndpointShards{}
+		e.shardsBySvc[serviceName] = m
+	}
+
+	ep, ok := m[namespace]
+	if !ok {
+		ep = &EndpointShards{
+			Shards:          map[ShardKey][]*IstioEndpoint{},
+			ServiceAccounts: sets.String{},
+		}
+		m[namespace] = ep
+		// Clear the cache here to avoid race in cache writes.
+		e.clearCacheForService(serviceName, namespace)
+	}
+	ep.Lock()
+
+	return ep, true
+}
+
 func (e *EndpointIndex) DeleteServiceShard(shard ShardKey, serviceName, namespace string, preserveKeys bool) {
 	e.mu.Lock()
 	defer e.mu.Unlock()
@@ -316,7 +352,11 @@ func (e *EndpointIndex) UpdateServiceEndpoints(
 
 	pushType := IncrementalPush
 	// Find endpoint shard for this service, if it is available - otherwise create a new one.
-	ep, created := e.GetOrCreateEndpointShard(hostname, namespace)
+	// The shard is returned locked: taking its lock only after the index lock has been released would
+	// allow a concurrent delete to unlink the (momentarily empty) shard set in between, and this update
+	// would then be written to an object no reader can reach anymore.
+	ep, created := e.getOrCreateLockedEndpointShard(hostname, namespace)
+	defer ep.Unlock()
 	// If we create a new endpoint shard, that means we have not seen the service earlier. We should do a full push.
 	if created {
 		if logPushType {
@@ -328,8 +368,6 @@ func (e *EndpointIndex) UpdateServiceEndpoints(
 	}
 
 	verifGate("eps.update.afterLookup")
-	ep.Lock()
-	defer ep.Unlock()
 	oldIstioEndpoints := ep.Shards[shard]
 	newIstioEndpoints, needPush := endpointUpdateRequiresPush(oldIstioEndpoints, istioEndpoints)
 
